@@ -72,12 +72,15 @@ let run_script (script : string) : string =
         | c -> emit (Printf.sprintf "?%c" c)) (String.split_on_char ' ' script);
   String.concat " " (List.rev !out)
 
+let c01_verdict_fwd : (string -> string -> string) ref = ref (fun _ _ -> "ok")
+let c01_verdict_ref a i = !c01_verdict_fwd a i
+
 let cmd_dp (_p : string) (arg : string) (_impl : string) : string * string =
   match String.index_opt arg '|' with
   | None -> ("UNPARSABLE", "-")
   | Some i ->
     let script = String.sub arg (i + 1) (String.length arg - i - 1) in
-    (run_script script, if _impl = "" then "-" else "ok")
+    (run_script script, if _impl = "" then "-" else c01_verdict_ref arg _impl)
 
 (* ctlser install:<n> : does an install message for a program of n statements serialize, and how long is it *)
 let cmd_ctlser (_p : string) (arg : string) (_impl : string) : string * string =
@@ -96,3 +99,156 @@ let cmd_ctlser (_p : string) (arg : string) (_impl : string) : string * string =
         | Panic -> ("SERPANIC", "ok"))
      | _ -> ("COMPILE-ERR", "ok"))
   | _ -> ("UNPARSABLE", "-")
+
+(* ------------------------------------------------------------------------------------------
+   C01: the source-level semantics (Portus.Lang.SrcSem) run over the same script; the expected
+   token sequence is compared with what the real libccp did with the bytes portus produced. *)
+
+let name_of_string (s : string) : n list = List.init (String.length s) (fun i -> byte_table.(Char.code s.[i]))
+
+type srcinfo = { sp : sprog; tys : vty list; final_scope : (n list * reg) list; uid_of_install : n }
+
+let build_src (src_bytes : n list) : srcinfo option =
+  match utf8_decode src_bytes with
+  | None -> None
+  | Some cps ->
+    (match new_with_scope cps, compile src_bytes [] with
+     | Inl (Ok (evs, sc0)), Inl (Ok (_, scf)) ->
+       (* declared variables: report slots in order, then control slots *)
+       let decls = List.filter_map (fun (nm, r) -> match r with
+           | Report (i, t, v) -> Some (0, int_of_n i, nm, v, t, true)
+           | Control (i, t, v) -> Some (1, int_of_n i, nm, v, t, false)
+           | _ -> None) sc0.sc_named in
+       let decls = List.sort compare decls in
+       let mk (_, _, nm, v, t, isrep) =
+         let (init, ty) = match t with
+           | TNum (Some n) -> (Some n, VNum) | TBool (Some b) -> (Some (if b then n_of_int 1 else N0), VBool)
+           | TBool None -> (None, VBool) | _ -> (None, VNum) in
+         ({ sd_name = nm; sd_vol = v; sd_init = init; sd_report = isrep }, ty) in
+       let dl = List.map mk decls in
+       let sp = { sp_decls = List.map fst dl;
+                  sp_events = List.map (fun ev -> { se_cond = ev.ev_flag; se_body = ev.ev_body }) evs } in
+       Some { sp; tys = List.map snd dl; final_scope = scf.sc_named; uid_of_install = N0 }
+     | _ -> None)
+
+let find_name (scope : (n list * reg) list) (pred : reg -> bool) : n list option =
+  match List.find_opt (fun (_, r) -> pred r) scope with Some (nm, _) -> Some nm | None -> None
+
+let le_bytes (b : n list) (off : int) (k : int) : n =
+  let rec go i acc = if i < 0 then acc else
+      go (i - 1) (Model.N.add (Model.N.mul acc (n_of_int 256)) (match List.nth_opt b (off + i) with Some x -> x | None -> N0)) in
+  go (k - 1) N0
+
+let decode_updates (info : srcinfo) (body : n list) (count : int) : (n list * n) list =
+  let rec go i acc =
+    if i >= count then List.rev acc else begin
+      let off = i * 13 in
+      let cls = int_of_n (match List.nth_opt body off with Some x -> x | None -> N0) in
+      let idx = le_bytes body (off + 1) 4 and v = le_bytes body (off + 5) 8 in
+      let nm =
+        if cls = 0 || cls = 8 then find_name info.final_scope (fun r -> match r with Control (i, _, _) -> i = idx | _ -> false)
+        else if cls = 2 && int_of_n idx = 4 then Some (name_of_string "Cwnd")
+        else if cls = 2 && int_of_n idx = 5 then Some (name_of_string "Rate")
+        else None in
+      go (i + 1) (match nm with Some n -> (n, v) :: acc | None -> acc)
+    end in
+  go 0 []
+
+let expected_dump (info : srcinfo) (e : (n list * n) list) : string =
+  let get nm = env_get e nm in
+  let slots k pred = String.concat "," (List.init k (fun i ->
+      match find_name info.final_scope (pred (n_of_int i)) with
+      | Some nm -> n_to_hex (get nm) | None -> "0")) in
+  Printf.sprintf "G%s|%s|%s|%s"
+    (slots 16 (fun i r -> match r with Report (j, _, _) -> j = i | _ -> false))
+    (slots 16 (fun i r -> match r with Control (j, _, _) -> j = i | _ -> false))
+    (slots 8 (fun i r -> match r with Local (j, _) -> j = i | _ -> false))
+    (slots 6 (fun i r -> match r with Implicit (j, _) -> j = i | _ -> false))
+
+(* the expected token sequence according to the source semantics *)
+let expected_tokens (info : srcinfo) (script : string) : string =
+  let out = ref [] in
+  let emit s = out := s :: !out in
+  let d = ref dp_init in                          (* the libccp model decides which messages are accepted *)
+  let st = ref { s_env = []; s_tz = n_of_int 1000 } in
+  let pend = ref { pn_switch = false; pn_updates = [] } in
+  let selected = ref false and uid = ref N0 and prims = ref prims0 and clock = ref (n_of_int 1000) in
+  let have_conn = ref false in
+  emit ("S" ^ hex_of_bytes (match serialize_msg (MRdy (n_of_int 7)) with Ok b -> b | _ -> []));
+  emit "init0";
+  List.iter (fun op ->
+      if op <> "" then
+        let rest = String.sub op 1 (String.length op - 1) in
+        match op.[0] with
+        | 'M' ->
+          let bytes = bytes_of_hex rest in
+          let (rc, d') = read_msg !d bytes in d := d'; emit ("M" ^ z_str rc);
+          if rc = Z0 then begin
+            let typ = int_of_n (le_bytes bytes 0 2) in
+            let body = (try List.filteri (fun i _ -> i >= 8) bytes with _ -> []) in
+            if typ = 2 then uid := le_bytes body 0 4
+            else if typ = 4 then begin
+              let cnt = int_of_n (le_bytes body 4 4) in
+              selected := true;
+              pend := { pn_switch = true; pn_updates = decode_updates info (List.filteri (fun i _ -> i >= 8) body) cnt }
+            end else if typ = 3 then begin
+              let cnt = int_of_n (le_bytes body 0 1) in
+              pend := { !pend with pn_updates = !pend.pn_updates @ decode_updates info (List.filteri (fun i _ -> i >= 4) body) cnt }
+            end
+          end
+        | 'N' ->
+          (match String.split_on_char ',' rest with
+           | [cw; mss; alg] ->
+             let (d', evs) = conn_start !d (n_of_hex cw) (n_of_hex mss) (if alg = "-" then [] else bytes_of_hex alg) in
+             d := d'; List.iter (fun e -> emit (ev_str e)) evs; emit "N1"; have_conn := true;
+             st := { s_env = []; s_tz = n_of_int 1000 }
+           | _ -> emit "N?")
+        | 'P' ->
+          (match !d.d_conn with
+           | Some c -> let c' = set_prims c (List.map n_of_hex (String.split_on_char ',' rest)) in
+             prims := c'.c_prims; d := { !d with d_conn = Some c' }
+           | None -> emit "P-noconn")
+        | 'T' -> clock := n_of_hex rest; d := { !d with d_clock = !clock }
+        | 'I' ->
+          if not !have_conn then emit "I-noconn"
+          else if not !selected then emit "I-96"
+          else begin
+            let cx = { cx_clock = !clock; cx_dp_zero = n_of_int 1000; cx_prims = !prims } in
+            let ((z, s'), outs) = invoke_src info.sp cx !pend !st in
+            st := s'; pend := { pn_switch = false; pn_updates = [] };
+            List.iter (fun o -> match o with
+                | SCwnd v -> emit ("W" ^ n_to_hex v)
+                | SRate v -> emit ("R" ^ n_to_hex v)
+                | SReport fs -> emit ("S" ^ hex_of_bytes (measure_bytes (n_of_int 1) !uid fs (n_of_int (List.length fs))))) outs;
+            emit ("I" ^ z_str z)
+          end
+        | 'G' -> if not !have_conn then emit "G-noconn" else emit (expected_dump info !st.s_env)
+        | 'F' -> if !have_conn then (emit ("S" ^ hex_of_bytes (measure_bytes (n_of_int 1) N0 [] N0)); have_conn := false)
+        | c -> emit (Printf.sprintf "?%c" c)) (String.split_on_char ' ' script);
+  String.concat " " (List.rev !out)
+
+let c01_verdict (arg : string) (impl : string) : string =
+  match String.index_opt arg '|' with
+  | None -> "-"
+  | Some i ->
+    let src = bytes_of_hex (String.sub arg 0 i) in
+    let script = String.sub arg (i + 1) (String.length arg - i - 1) in
+    (match build_src src with
+     | None -> "n/a:unparsable"
+     | Some info ->
+       if not (wt_prog info.sp info.tys) then "n/a:not-well-typed"
+       else begin
+         let expect = expected_tokens info script in
+         if expect = impl then "ok"
+         else begin
+           let a = Array.of_list (String.split_on_char ' ' impl) and e = Array.of_list (String.split_on_char ' ' expect) in
+           let k = ref 0 in
+           while !k < Array.length a && !k < Array.length e && a.(!k) = e.(!k) do incr k done;
+           let what = if !k < Array.length e then String.make 1 e.(!k).[0] else "end" in
+           if legacy_inf_prog info.sp then "n/a:legacy-infinity-initial-value"
+           else if clobbers_prog info.sp then "FAIL:C01:clobbers:operand-overwritten-before-use"
+           else Printf.sprintf "FAIL:C01:source-semantics-differ-at-token-%d-%s" !k what
+         end
+       end)
+
+let () = c01_verdict_fwd := c01_verdict
